@@ -20,7 +20,9 @@
 (*                                                                         *)
 (* BlockChainFSM.Apply is split at its durable writes (failpoints of        *)
 (* gemmill/verifhook in go-db / ethdb), in program order:                   *)
-(*   decode; `blockStore.Height()+1 != block.Height` -> "found dup block"   *)
+(*   decode; [SnapGuard, repair efcd2d7] store height < height of the       *)
+(*   restored snapshot -> entry skipped ("behind");                         *)
+(*   `blockStore.Height()+1 != block.Height` -> "found dup block"           *)
 (*   W_Items    SaveBlock: H:h P:h:* C:h-1 SC:h        (invisible)          *)
 (*   W_Desc     SaveBlock: blockStore descriptor        (store height = h)  *)
 (*              ApplyBlock on a state copy: validateBlock (raft's           *)
@@ -37,8 +39,9 @@
 (* Crash(r) may strike between any two of them; Restart(r) is the restart   *)
 (* path of the real node (LoadState, NewBlockStore, completeInterrupted-    *)
 (* Commit, the reactor's height adjustment, RecoverFromCrash) followed by   *)
-(* raft restoring its newest snapshot into the FSM (Restore discards it)    *)
-(* and delivering the log again from the snapshot index.                    *)
+(* raft restoring its newest snapshot into the FSM (Restore keeps only the  *)
+(* height it records -- nothing at all before the repair) and delivering    *)
+(* the log again from the snapshot index.                                   *)
 (*                                                                         *)
 (* ConsensusState.run (started by the SwitchToConsensus event):             *)
 (*   top:       Follower -> select { <-appliedCh ; 1 s }                    *)
